@@ -172,4 +172,53 @@ dq.appendleft(0)
 check("deque append/popleft/appendleft/index", list(dq) == [0, 2, 3, 4] and dq[-1] == 4 and dq[0] == 0)
 check("typing.Deque([...]) builds a deque", list(Deque([5])) == [5])
 
+# models added with the later seeded rounds: rows of a[k:], a.flat[...] reads, OptimizeResult as a dict, the class
+# invariant of LbfgsInvHessProduct, shallow copy of a result, generator expressions and StopIteration (PEP 479)
+import copy as _copy            # noqa: E402
+from scipy.optimize import OptimizeResult   # noqa: E402
+for _ in range(50):
+    r_, c_ = int(rng.integers(1, 7)), int(rng.integers(1, 4))
+    A = rng.normal(size=(r_, c_))
+    k = int(rng.integers(0, r_ + 1))
+    check("rows of a[k:] == rows(a) - k for 0 <= k <= rows(a)", A[k:].shape[0] == r_ - k and len(A[k:]) == r_ - k)
+    if k >= 1:
+        check("rows of a[-k:] == k for 1 <= k <= rows(a)", A[-k:].shape[0] == k and np.array_equal(A[-k:], A[r_ - k:]))
+    check("len(a) == a.shape[0]", len(A) == A.shape[0])
+    st = int(rng.integers(1, 4))
+    check("a.flat[::st] reads the row-major entries", np.array_equal(A.flat[::st], A.ravel()[::st]))
+    i = int(rng.integers(0, A.size))
+    check("a.flat[i] reads the row-major entry", A.flat[i] == A.ravel()[i])
+res_ = OptimizeResult(x=np.zeros(2), status=2, message="m")
+check("OptimizeResult: keys are attributes, get / [] / update / in", res_.get("status", 0) == 2 and res_.get("nope", 7) == 7
+      and res_["message"] == "m" and res_.status == 2)
+res_.update(status=0)
+check("OptimizeResult.update rewrites the attribute", res_.status == 0 and res_["status"] == 0)
+res_["extra"] = 1
+check("OptimizeResult item store creates the attribute", res_.extra == 1)
+cp_ = _copy.copy(res_)
+check("copy.copy(OptimizeResult): new object, same fields", cp_ is not res_ and cp_.x is res_.x and cp_.status == res_.status)
+try:
+    res_["absent"]
+    check("OptimizeResult[...] of a missing key raises KeyError", False)
+except KeyError:
+    check("OptimizeResult[...] of a missing key raises KeyError", True)
+try:
+    LbfgsInvHessProduct(np.zeros((2, 3)), np.zeros((1, 3)))
+    check("LbfgsInvHessProduct rejects sk, yk of different shapes", False)
+except ValueError:
+    check("LbfgsInvHessProduct rejects sk, yk of different shapes", True)
+
+
+def _raises_stop():
+    raise StopIteration
+
+
+try:
+    a_, b_ = (f() if callable(f) else f for f in (_raises_stop, 1.0))
+    check("PEP 479: StopIteration inside a generator expression becomes RuntimeError", False)
+except RuntimeError:
+    check("PEP 479: StopIteration inside a generator expression becomes RuntimeError", True)
+except StopIteration:
+    check("PEP 479: StopIteration inside a generator expression becomes RuntimeError", False)
+
 print(json.dumps({"tests": n_tests, "failures": sorted(set(fails))}))
